@@ -96,6 +96,9 @@ func oracle(sc *Scenario, o *Obs) []verdict {
 	if o.DialAddr != wantAddr {
 		add("wrong-destination", "dialed %s, requested %s", o.DialAddr, wantAddr)
 	}
+	if sc.Reset != "" {
+		return append(vs, oracleErrorEnding(sc, o, wantT, wantC)...)
+	}
 	if !bytes.Equal(o.TargetRx, wantT) {
 		head := sc.ReqLen + sc.FirstLen
 		switch {
@@ -179,4 +182,65 @@ func droppedWithin(got, want []byte, head int) bool {
 		}
 	}
 	return false
+}
+
+// oracleErrorEnding: a session that relayed data and then ended with a copy error. The statement's clauses still apply:
+// what each peer received is a prefix of what the other sent (complete on the side that did not abort), and "the byte counts
+// handed to statistics equal the bytes actually delivered each way" — the session must be in the statistics (count +1), the
+// figures must lie between what the receiving harness peer actually got before the abort (lower bound) and what the sending
+// peer wrote (upper bound); the kernel's ambiguity exists only for bytes in flight at the moment of the abort.
+func oracleErrorEnding(sc *Scenario, o *Obs, wantT, wantC []byte) []verdict {
+	var vs []verdict
+	add := func(k, f string, a ...any) { vs = append(vs, verdict{k, fmt.Sprintf(f, a...)}) }
+	if !bytes.HasPrefix(wantT, o.TargetRx) {
+		add("uplink-stream-mismatch", "target received %d bytes that are not a prefix of what the client sent (first difference at %d)", len(o.TargetRx), firstDiff(o.TargetRx, wantT))
+	}
+	if !bytes.HasPrefix(wantC, o.ClientRx) {
+		add("downlink-stream-mismatch", "client received %d bytes that are not a prefix of what the target sent (first difference at %d)", len(o.ClientRx), firstDiff(o.ClientRx, wantC))
+	}
+	switch sc.Reset {
+	case "target", "wclosed": // the client side ends gracefully: everything the target sent, then EOF
+		if !bytes.Equal(o.ClientRx, wantC) {
+			add("downlink-truncated", "client received %d of %d bytes although the target sent them all before it went away", len(o.ClientRx), len(wantC))
+		}
+		if !o.ClientEOF {
+			add("eof-not-mirrored:target->client", "the remote side went away; the client never saw end-of-stream")
+		}
+	case "client":
+		if !bytes.Equal(o.TargetRx, wantT) {
+			add("uplink-truncated", "target received %d of %d bytes although the client sent them all before it aborted", len(o.TargetRx), len(wantT))
+		}
+		if !o.TargetEOF {
+			add("eof-not-mirrored:client->target", "the client aborted; the target never saw end-of-stream")
+		}
+	}
+	for _, e := range o.Errors {
+		if strings.Contains(e, "timeout") {
+			add("copy-error-or-hang", "%s", e)
+		}
+	}
+	if o.Stats.Sessions != 1 {
+		add("stats-session-missing-after-copy-error:"+sc.Reset, "tcpSessions=%d after a session that relayed %d bytes up / %d bytes down and then ended with a copy error (stats %+v)",
+			o.Stats.Sessions, len(o.TargetRx), len(o.ClientRx), o.Stats)
+		return vs
+	}
+	upLo, upHi := uint64(len(o.TargetRx)), uint64(o.ClientSent)
+	downLo, downHi := uint64(len(o.ClientRx)), uint64(o.TargetSent)
+	if o.Stats.Up < upLo {
+		add("stats-uplink-undercount", "uplinkBytes=%d, the target had received %d bytes before the connection ended", o.Stats.Up, upLo)
+	} else if o.Stats.Up > upHi {
+		add("stats-uplink-overcount", "uplinkBytes=%d, the client wrote only %d bytes", o.Stats.Up, upHi)
+	}
+	if o.Stats.Down < downLo {
+		add("stats-downlink", "downlinkBytes=%d, the client had received %d bytes", o.Stats.Down, downLo)
+	} else if o.Stats.Down > downHi {
+		add("stats-downlink", "downlinkBytes=%d, the target wrote only %d bytes", o.Stats.Down, downHi)
+	}
+	if o.Stats.User != sc.user() {
+		add("stats-user", "charged to %q, the connection was made by %q", o.Stats.User, sc.user())
+	}
+	if o.Stats.Others != "" {
+		add("stats-other-counters", "%s", o.Stats.Others)
+	}
+	return vs
 }
